@@ -180,6 +180,62 @@ Definition sfb2d (ll lh hl hh:ten) (Lr:Z) (g0r g1r:Z->R) (Lc:Z) (g0c g1c:Z->R) (
 Definition afb2d_atrous (x:ten) (Lr:Z) (h0r h1r:Z->R) (Lc:Z) (h0c h1c:Z->R) (mode dil:Z) : res ten :=
   do lohi <- afb1d_atrous x Lr h0r h1r mode 3 dil; afb1d_atrous lohi Lc h0c h1c mode 2 dil.
 
+(* ---- non-separable one-level banks (afb2d_nonsep / sfb2d_nonsep), filters given as passed by the caller ---- *)
+(* prep_filt_afb2d_nonsep: outer products, both axes flipped; band b = 2*(row band) ... order (ll, lh, hl, hh) with
+   ll = outer(h0_col,h0_row), lh = outer(h1_col,h0_row), hl = outer(h0_col,h1_row), hh = outer(h1_col,h1_row) *)
+Definition csel (h0 h1:Z->R) (b:Z) : Z->R := if (b =? 1) || (b =? 3) then h1 else h0.   (* column filter of band b *)
+Definition rsel (h0 h1:Z->R) (b:Z) : Z->R := if (b =? 2) || (b =? 3) then h1 else h0.   (* row filter of band b *)
+Definition w_afb_nonsep (C Ly Lx:Z) (h0c h1c h0r h1r:Z->R) : @wten R :=
+  mkW (4*C) Ly Lx (fun oc a b => csel h0c h1c (oc mod 4) (Ly-1-a) *r rsel h0r h1r (oc mod 4) (Lx-1-b)).
+Definition w_sfb_nonsep_band (bnd C Ly Lx:Z) (g0c g1c g0r g1r:Z->R) : @wten R :=
+  mkW C Ly Lx (fun _ a b => csel g0c g1c bnd a *r rsel g0r g1r bnd b).
+
+Definition afb2d_nonsep (x:ten) (Ly:Z) (h0c h1c:Z->R) (Lx:Z) (h0r h1r:Z->R) (mode:Z) : res ten :=
+  let C := tC x in
+  let w := w_afb_nonsep C Ly Lx h0c h1c h0r h1r in
+  if mode =? M_PER then
+    let x1 := if tH x mod 2 =? 1 then t_cat 2 x (t_slice 2 (pyclip (tH x) (-1)) (tH x) 1 x) else x in
+    let x2 := if tW x1 mod 2 =? 1 then t_cat 3 x1 (t_slice 3 (pyclip (tW x1) (-1)) (tW x1) 1 x1) else x1 in
+    let Ny := tH x2 in let Nx := tW x2 in
+    let x3 := force Op (roll (force Op (roll x2 ((- Ly)/2) 2)) ((- Lx)/2) 3) in
+    do y <- conv2d_r Op x3 w 2 2 (Ly-1) (Lx-1) 1 1;
+    let y := force Op y in
+    do y1 <- fold_add 2 (Ly/2) (Ny/2) y;
+    let y1 := force Op y1 in
+    do y2 <- fold_add 3 (Lx/2) (Nx/2) y1;
+    Ok (force Op (t_pyslice 3 0 (Nx/2) (t_pyslice 2 0 (Ny/2) y2)))
+  else if (mode =? M_ZERO) || (mode =? M_SYMM) || (mode =? M_REFLECT) then
+    let out1 := dwt_coeff_len (tH x) Ly mode in
+    let out2 := dwt_coeff_len (tW x) Lx mode in
+    let p1 := 2 * (out1 - 1) - tH x + Ly in
+    let p2 := 2 * (out2 - 1) - tW x + Lx in
+    if mode =? M_ZERO then
+      let x1 := t_zpad Op 0 (if p2 mod 2 =? 1 then 1 else 0) 0 (if p1 mod 2 =? 1 then 1 else 0) x in
+      do y <- conv2d_r Op (force Op x1) w 2 2 (p1/2) (p2/2) 1 1; Ok (force Op y)
+    else
+      do xa <- mypad 3 (p2/2) ((p2+1)/2) mode x;
+      do xb <- mypad 2 (p1/2) ((p1+1)/2) mode xa;
+      do y <- conv2d_r Op (force Op xb) w 2 2 0 0 1 1; Ok (force Op y)
+  else Err E_VALUE.
+
+Definition sfb2d_nonsep (x:ten) (Ly:Z) (g0c g1c:Z->R) (Lx:Z) (g0r g1r:Z->R) (mode:Z) : res ten :=
+  let C := tC x / 4 in
+  let Ny := tH x in let Nx := tW x in
+  let term (b:Z) (ph pw:Z) := convT2d_r Op (band4 b x) (w_sfb_nonsep_band b C Ly Lx g0c g1c g0r g1r) 2 2 ph pw in
+  let total (ph pw:Z) :=
+    do t0 <- term 0 ph pw; do t1 <- term 1 ph pw; do t2 <- term 2 ph pw; do t3 <- term 3 ph pw;
+    Ok (force Op (t_add Op (t_add Op t0 t1) (t_add Op t2 t3))) in
+  if mode =? M_PER then
+    do ll <- total 0 0;
+    do l1 <- fold_add 2 (Ly-2) (2*Ny) ll;
+    let l1 := force Op l1 in
+    do l2 <- fold_add 3 (Lx-2) (2*Nx) l1;
+    let l3 := force Op (t_pyslice 3 0 (2*Nx) (t_pyslice 2 0 (2*Ny) l2)) in
+    Ok (force Op (roll (force Op (roll l3 (1 - Ly/2) 2)) (1 - Lx/2) 3))
+  else if (mode =? M_SYMM) || (mode =? M_ZERO) || (mode =? M_REFLECT) || (mode =? M_PERIODIC) then
+    total (Ly-2) (Lx-2)
+  else Err E_VALUE.
+
 (* ---- modules: level loops ---- *)
 Fixpoint DWT1DForward (J:nat) (x:ten) (L:Z) (h0 h1:Z->R) (mode:Z) : res (ten * list ten) :=
   match J with
